@@ -138,8 +138,15 @@ func main() {
 
 	if !*nomodel && len(g.items) > 0 {
 		lines := make([]string, len(g.items))
+		altAt := map[int]int{}
 		for i, it := range g.items {
 			lines[i] = it.line
+		}
+		for i, it := range g.items {
+			if it.alt != "" {
+				altAt[i] = len(lines)
+				lines = append(lines, it.alt)
+			}
 		}
 		res, err := vh.Driver{Path: *driver}.RunParallel(lines)
 		if err != nil {
@@ -149,6 +156,9 @@ func main() {
 		for i, it := range g.items {
 			rep.Compared++
 			allowed := map[string]bool{res[i]: true}
+			if j, ok := altAt[i]; ok {
+				allowed[res[j]] = true
+			}
 			if it.set {
 				allowed = map[string]bool{}
 				for _, a := range strings.Split(res[i], "|") {
